@@ -60,7 +60,17 @@ func setDurationField(field reflect.Value, fieldType reflect.Type, isPtr bool, v
 }
 
 // deserializeParams reads row 0 from a record batch into a Go struct.
-func deserializeParams(batch arrow.RecordBatch, target reflect.Type) (reflect.Value, error) {
+func deserializeParams(batch arrow.RecordBatch, target reflect.Type) (result reflect.Value, err error) {
+	// The batch is client-supplied and this runs outside the handler's
+	// recover: a batch without a row 0 (a zero-row pointer batch nobody
+	// resolved) or with corrupt offset/validity buffers must come back as a
+	// parameter error, not as a panic out of the serve loop or ServeHTTP.
+	defer func() {
+		if rv := recover(); rv != nil {
+			result = reflect.Value{}
+			err = fmt.Errorf("malformed parameter batch: %v", rv)
+		}
+	}()
 	if target.Kind() == reflect.Ptr {
 		target = target.Elem()
 	}
@@ -107,7 +117,11 @@ func deserializeParams(batch arrow.RecordBatch, target reflect.Type) (reflect.Va
 		)
 	}
 
-	result := reflect.New(target).Elem()
+	if len(desc.Fields) > 0 && batch.NumRows() < 1 {
+		return reflect.Value{}, fmt.Errorf("expected 1 row in parameter batch, got %d", batch.NumRows())
+	}
+
+	result = reflect.New(target).Elem()
 
 	for ord, fd := range desc.Fields {
 		info := fd.Info
